@@ -306,15 +306,45 @@ fn versions() -> Vec<Version> {
         Version { name: "garbage", record: record(key.clone(), Bytes::from_static(&[0xff, 0x00, 0x13, 0x37])), authentic: None, is_pad: false, plaintext: b"" },
         Version { name: "a chunk record", record: record(key.clone(), try_serialize_record(&chunk(b"not a pad"), RecordKind::Chunk).unwrap()), authentic: None, is_pad: false, plaintext: b"" },
     ];
-    // sanity of the fixtures against the real type
+    // sanity of the fixtures, computed independently of the code under test (BLS verification of the signing bytes)
     for v in out.iter_mut() {
         if v.is_pad || v.name.ends_with("chunk header") {
             let p: Scratchpad = ant_protocol::storage::try_deserialize_record(&v.record).expect("fixture decodes");
-            let really = p.is_valid() && *p.owner() == owner_pk && *p.address() == ant_protocol::storage::ScratchpadAddress::new(owner_pk);
+            let m = ScratchpadMirror::from_real(&p);
+            let signed_by_owner = m.signature.as_ref().map(|sig| owner_pk.verify(sig, ScratchpadMirror::signing_bytes(m.counter, &m.encrypted_data))).unwrap_or(false);
+            let really = signed_by_owner && m.address == ant_protocol::storage::ScratchpadAddress::new(owner_pk);
             assert_eq!(really, v.authentic.is_some(), "fixture {} authenticity", v.name);
         }
     }
     out
+}
+
+/// `Scratchpad::is_valid()` itself, on every fixture, in the order they are listed and then again in reverse (a verdict
+/// must not depend on what was validated before): it must agree with the independent BLS verification.
+fn validity_of_fixtures(run: &Run, vs: &[Version]) {
+    let owner_pk = bls_sk(OWNER).public_key();
+    let order: Vec<usize> = (0..vs.len()).chain((0..vs.len()).rev()).collect();
+    for (pass, i) in order.into_iter().enumerate() {
+        let v = &vs[i];
+        if !(v.is_pad || v.name.ends_with("chunk header")) {
+            continue;
+        }
+        let p: Scratchpad = ant_protocol::storage::try_deserialize_record(&v.record).expect("fixture decodes");
+        let m = ScratchpadMirror::from_real(&p);
+        // valid = signed by the key the pad itself names as owner (a foreign pad is valid for its own owner)
+        let want = m.signature.as_ref().map(|sig| p.owner().verify(sig, ScratchpadMirror::signing_bytes(m.counter, &m.encrypted_data))).unwrap_or(false);
+        let got = p.is_valid();
+        run.case(format!("is_valid:{}:{}", v.name, pass).as_bytes(), true);
+        if got != want {
+            run.violation(
+                "scratchpad-validity",
+                if got { "invalid-pad-reported-valid" } else { "valid-pad-reported-invalid" },
+                format!("Scratchpad::is_valid() = {got} for the version '{}' (owner key verifies the signature over counter and content hash: {want}), evaluation {pass} in this process", v.name),
+                json!({"version": v.name, "evaluation": pass}),
+            );
+        }
+        let _ = owner_pk;
+    }
 }
 
 fn clone_mirror(m: &ScratchpadMirror) -> ScratchpadMirror {
@@ -380,6 +410,7 @@ fn judge_vault(run: &Run, delivered: &[&Version], how: &str, res: Option<Result<
 
 fn vault_reads(run: &Run) {
     let vs = versions();
+    validity_of_fixtures(run, &vs);
     let mut execs = 0u64;
     let read = |reply: Result<Record, GetRecordError>| -> Option<Result<(Bytes, u64), String>> {
         let mut rig = ClientRig::new();
